@@ -1201,6 +1201,10 @@ func (x *exec) unop(s *State, i *ssa.UnOp) Value {
 		}
 	case token.ARROW:
 		x.chanOp(s, v, "recv", i.Pos())
+		if cht, ok := v.(*Term); ok {
+			h := e.heapGet(s, "chan#lastrecv", Array(Int, Int))
+			e.heapSet(s, "chan#lastrecv", c.Store(h, c.IntC(0), cht))
+		}
 		ch := i.X.Type().Underlying().(*types.Chan)
 		r := e.fresh(ch.Elem(), "recv", s)
 		if i.CommaOk {
